@@ -4,8 +4,9 @@ spec/C17/Fresh.tla     R-spec: artefacts, their secret-bearing fields, Construct
                        property as guards (NoSharedSecret, NoNonceReuse); the same clauses as state invariants
  FreshMC.tla           MC  : Fresh driven by the ideal generator - invariants hold, every action fires
  FreshImpl.tla         I-spec: WHEN each kind draws (import / construction / export / constant) as built; TLC predicts the reuse
- FreshGen.tla          GEN : all histories of <= D constructions over the menu (kinds x how x user-supplied fields), with restarts;
-                             -simulate for free interleavings of Construct / Export / Restart
+ FreshGen.tla          GEN : all histories of <= D constructions over the menu (kinds x how x user-supplied fields), each building a new
+                             object or configuring the object of a live artefact AGAIN (Reconfigure, kinds whose load_from_config is a
+                             method of the object), with restarts; -simulate for free interleavings of Construct / Reconfigure / Export / Restart
  FreshTrace.tla        TV  : batch trace validation of id-canonicalised histories observed on the real code
 
 Python only EXECUTES: every interpreter segment of a history runs in a fresh interpreter (harness/c17_child.py) in which
@@ -39,6 +40,8 @@ FIELDS = {"SB20": ["dek", "mac", "nonce", "hpad", "kpad"], "SB21": ["dek", "mac"
           "BEE": ["sw_key", "counter", "kib_key", "kib_iv"], "HAB": ["dek", "nonce"], "HABRT": ["dek", "nonce"], "HEX": ["value"]}
 NARROW = {"OTFAD": ["filler"]}       # < 64 bit: asserted only in histories with few constructions (birthday bound, see assumptions)
 NARROW_MAX_ARTS = 8
+RECONF = {"MBI"}                     # Reconf of Fresh.tla (cross-checked against the histories TLC emits): the object can be configured again
+BUILDS = ("Construct", "Reconfigure")  # the steps of a history that build an artefact
 USER_FIELDS = [("sb_dek", 32), ("sb_mac", 32), ("sb_nonce", 16), ("mbi_key", 32), ("mbi_ctr_iv", 16), ("otfad_key", 16), ("otfad_ctr", 8),
                ("iee_key1", 64), ("iee_key2", 64), ("bee_sw_key", 16), ("hab_dek", 32), ("hab_nonce", 13), ("habrt_dek", 16)]
 
@@ -177,12 +180,12 @@ def execute(item):
     forked = FORK_OK[0] and hid.startswith("f")   # "f..." ids: short histories without restart; all others get a new process image per segment
     ids, where, evs, info = {}, {}, [], {"errors": [], "phases": [], "forked": forked}
     kinds = {}
-    narts = sum(1 for s in hist if s["op"] == "Construct")
+    narts = sum(1 for s in hist if s["op"] in BUILDS)
     base = os.path.join(scratch(), "c17", hid)
     seen_kind = {}
     hist = [dict(s) for s in hist]
     for s in hist:  # input image of the build: alternates per kind, so a history has builds with different and (from the third on) with identical inputs
-        if s["op"] == "Construct":
+        if s["op"] in BUILDS:
             s["variant"] = seen_kind.get(s["kind"], 0) % 2
             seen_kind[s["kind"]] = seen_kind.get(s["kind"], 0) + 1
     for si, seg in enumerate(segments(hist)):
@@ -212,6 +215,8 @@ def execute(item):
                 note(ph, n, hx)
             if st["op"] == "Construct":
                 kinds[st["art"]] = (st["kind"], st["how"], list(st["ex"]))
+            elif st["op"] == "Reconfigure":  # reported under its own <how>: the artefact of an object that was configured again
+                kinds[st["art"]] = (st["kind"], "reconfig", list(st["ex"]))
             kind, how, ex = kinds[st["art"]]
             f, skip = {}, []
             for name, hx in rec["fields"].items():
@@ -228,6 +233,8 @@ def execute(item):
                     info["phases"].append((kind, how, "+".join(ex), name, phase_class(expl[hx])))
             if st["op"] == "Construct":
                 evs.append({"ev": "Construct", "art": st["art"], "kind": kind, "how": how, "ex": ex, "f": f, "x": []})
+            elif st["op"] == "Reconfigure":
+                evs.append({"ev": "Reconfigure", "art": st["art"], "of": st["of"], "kind": kind, "ex": ex, "f": f, "x": []})
             else:
                 evs.append({"ev": "Export", "art": st["art"], "f": f, "skip": skip, "x": []})
     info["where"] = where
@@ -268,12 +275,15 @@ def culprits(trace, upto):
     for e in trace["ev"][:upto]:
         if e["ev"] == "Construct":
             kinds[e["art"]] = (e["kind"], e["how"], e["ex"])
-        if e["ev"] in ("Construct", "Export"):
+        if e["ev"] == "Reconfigure":
+            kinds[e["art"]] = (e["kind"], "reconfig", e["ex"])
+        if e["ev"] in ("Construct", "Reconfigure", "Export"):
             has.setdefault(e["art"], set()).update(e["f"].values())
     e = trace["ev"][upto]
-    if e["ev"] not in ("Construct", "Export"):
+    if e["ev"] not in ("Construct", "Reconfigure", "Export"):
         return None, []
-    kind, how, ex = (e["kind"], e["how"], e["ex"]) if e["ev"] == "Construct" else kinds.get(e["art"], (None, None, None))
+    kind, how, ex = ((e["kind"], e["how"], e["ex"]) if e["ev"] == "Construct" else (e["kind"], "reconfig", e["ex"]) if e["ev"] == "Reconfigure"
+                     else kinds.get(e["art"], (None, None, None)))
     if kind is None:
         return None, []
     bad = []
@@ -291,7 +301,9 @@ def apply_excuses(trace, excused):
     for e in trace["ev"]:
         if e["ev"] == "Construct":
             kinds[e["art"]] = (e["kind"], e["how"])
-        if e["ev"] in ("Construct", "Export") and e["art"] in kinds:
+        if e["ev"] == "Reconfigure":
+            kinds[e["art"]] = (e["kind"], "reconfig")
+        if e["ev"] in ("Construct", "Reconfigure", "Export") and e["art"] in kinds:
             k, h = kinds[e["art"]]
             e["x"] = sorted(f for (kk, hh, f) in excused if kk == k and hh == h and f in e["f"])
 
@@ -374,10 +386,17 @@ def canary(v):
     def exp(a, f, skip=()):
         return {"ev": "Export", "art": a, "f": f, "skip": list(skip), "x": []}
 
+    def rcf(a, of, kind, ex, f):
+        return {"ev": "Reconfigure", "art": a, "of": of, "kind": kind, "ex": ex, "f": f, "x": []}
+
     good = [T_import(), con(1, "OTFAD", "ctor", [], {"key": 1, "ctr": 2}), exp(1, {"key": 1, "ctr": 2, "filler": 3}), exp(1, {"key": 1, "ctr": 2, "filler": 4}),
             {"ev": "Restart"}, T_import(), con(2, "OTFAD", "ctor", ["key"], {"key": 5, "ctr": 6}), exp(2, {"key": 5, "ctr": 6, "filler": 7}),
             con(3, "OTFAD", "ctor", ["key"], {"key": 5, "ctr": 8}), exp(3, {"key": 5, "ctr": 8, "filler": 9}),
-            con(4, "MBI", "config", ["key", "ctr_iv"], {"key": 10, "ctr_iv": 11}), con(5, "MBI", "config", ["key", "ctr_iv"], {"key": 10, "ctr_iv": 11})]
+            con(4, "MBI", "config", ["key", "ctr_iv"], {"key": 10, "ctr_iv": 11}), con(5, "MBI", "config", ["key", "ctr_iv"], {"key": 10, "ctr_iv": 11}),
+            # [12..17] one object configured again and again: self-chosen IV, self-chosen again, the user's IV, self-chosen again
+            con(6, "MBI", "config", ["key"], {"key": 10, "ctr_iv": 12}), exp(6, {"key": 10, "ctr_iv": 12}),
+            rcf(7, 6, "MBI", ["key"], {"key": 10, "ctr_iv": 13}), exp(7, {"key": 10, "ctr_iv": 13}),
+            rcf(8, 7, "MBI", ["key", "ctr_iv"], {"key": 10, "ctr_iv": 11}), rcf(9, 8, "MBI", ["key"], {"key": 10, "ctr_iv": 14})]
     cases = {"canary-good": good}
 
     def mutate(name, fn):
@@ -391,6 +410,10 @@ def canary(v):
     mutate("canary-bad-equals-user-value", lambda t: t[8]["f"].update({"ctr": 5}))              # a self-chosen value an earlier artefact got from its user
     mutate("canary-bad-missing-field", lambda t: t[7]["f"].pop("filler"))                       # an executor that skips a field is rejected too
     mutate("canary-bad-no-import", lambda t: t.pop(5))
+    mutate("canary-bad-reconfigured-keeps-own-value", lambda t: t[14]["f"].update({"ctr_iv": 12}))   # configured again, the IV SPSDK chose before is still there
+    mutate("canary-bad-reconfigured-keeps-user-value", lambda t: t[17]["f"].update({"ctr_iv": 11}))  # configured again without IV, the explicit IV of before is still there
+    mutate("canary-bad-reconfigured-object-exported-as-old", lambda t: t[15].update({"art": 6}))     # the object no longer holds the artefact it was configured away from
+    mutate("canary-bad-reconfigure-of-fixed-kind", lambda t: t.insert(10, rcf(4, 3, "OTFAD", ["key"], {"key": 5, "ctr": 20})))  # no such step for kinds outside Reconf
     traces = [{"id": k, "ev": e} for k, e in cases.items()]
     rej, _ = tv_checked(traces)
     want = set(cases) - {"canary-good"}
@@ -406,7 +429,8 @@ def canary_e2e(v, healthy):
     The canary is conclusive only if SPSDK draws through token_bytes as on the pinned tree (one call per value): on a tree whose
     histories were rejected anyway it is recorded, not enforced."""
     runs = [("e2e-const", homogeneous(("OTFAD", "ctor", []), 2), "const"), ("e2e-cycle", homogeneous(("BEE", "ctor", []), 40), "cycle:64"),
-            ("e2e-cycle-short", homogeneous(("BEE", "ctor", []), 10), "cycle:64")]
+            ("e2e-cycle-short", homogeneous(("BEE", "ctor", []), 10), "cycle:64"),
+            ("e2e-reconf-const", reconfigured("MBI", [["key"], ["key"]]), "const")]
     out = [execute(x) for x in runs]
     for t, i in out:
         if t.get("failed"):
@@ -415,12 +439,14 @@ def canary_e2e(v, healthy):
             v.extra["canary_e2e"] = "not executable on this tree"
             return
     rej, _ = tv_checked([t for t, _i in out])
-    ok = "e2e-const" in rej and "e2e-cycle" in rej and "e2e-cycle-short" not in rej
+    ok = "e2e-const" in rej and "e2e-cycle" in rej and "e2e-cycle-short" not in rej and rej.get("e2e-reconf-const", (0,))[0] == 3
     if not ok and healthy:
-        raise Machinery(f"end-to-end canary failed: rejected {sorted(rej)} (constant and period-64 generators must be rejected, 10 BEE headers "
-                        f"with a period-64 generator draw 40 distinct values and must be accepted)")
+        raise Machinery(f"end-to-end canary failed: rejected {rej} (constant and period-64 generators must be rejected, 10 BEE headers "
+                        f"with a period-64 generator draw 40 distinct values and must be accepted, a real MBI object configured twice with a constant "
+                        f"generator must be rejected at the Reconfigure event)")
     v.extra["canary_e2e"] = ((f"real OTFAD key blobs with a constant token_bytes rejected at event {rej['e2e-const'][0] + 1}; 40 real BEE headers with a "
-                              f"period-64 token_bytes rejected at event {rej['e2e-cycle'][0] + 1} of {rej['e2e-cycle'][1]}; 10 headers (40 draws < 64) accepted")
+                              f"period-64 token_bytes rejected at event {rej['e2e-cycle'][0] + 1} of {rej['e2e-cycle'][1]}; 10 headers (40 draws < 64) accepted; "
+                              f"a real MBI object configured twice with a constant token_bytes rejected at its Reconfigure event")
                              if ok else f"inconclusive on this tree (rejected: {sorted(rej)}); not enforced because histories were rejected")
 
 
@@ -435,20 +461,62 @@ def homogeneous(item, n, export=True):
     return h
 
 
+def reconfigured(kind, exs, how="config", export=lambda: True):
+    """ONE object of a kind in RECONF: built with exs[0], then configured again with exs[1], exs[2], ..."""
+    h = [{"op": "Construct", "art": 1, "kind": kind, "how": how, "ex": list(exs[0])}]
+    for a, ex in enumerate(exs[1:], 2):
+        if export():
+            h.append({"op": "Export", "art": a - 1})
+        h.append({"op": "Reconfigure", "art": a, "of": a - 1, "kind": kind, "how": "config", "ex": list(ex)})
+    h.append({"op": "Export", "art": len(exs)})
+    return h
+
+
+def config_items(menu, kind):
+    return [list(e) for (k, h, e) in menu if k == kind and h == "config"]
+
+
 def mixed(menu, r, n):
-    h, a, since = [], 0, 0
+    h, a, since, live = [], 0, 0, []
     while a < n:
         if since > 10 and r.random() < 0.04:
             h.append({"op": "Restart", "art": 0})
-            since = 0
+            since, live = 0, []
             continue
-        kind, how, ex = r.choice(menu)
         a += 1
         since += 1
-        h.append({"op": "Construct", "art": a, "kind": kind, "how": how, "ex": list(ex)})
+        if live and r.random() < 0.15:  # the object of a live artefact is configured again
+            i = r.randrange(len(live))
+            of, kind = live[i]
+            h.append({"op": "Reconfigure", "art": a, "of": of, "kind": kind, "how": "config", "ex": r.choice(config_items(menu, kind))})
+            live[i] = (a, kind)
+        else:
+            kind, how, ex = r.choice(menu)
+            h.append({"op": "Construct", "art": a, "kind": kind, "how": how, "ex": list(ex)})
+            if kind in RECONF:
+                live.append((a, kind))
         if r.random() < 0.8:
             h.append({"op": "Export", "art": a})
     return h
+
+
+def expected_histories(menu, reconf_kinds, depth):
+    """Number of restart-free histories of 1..depth builds (a new object for any menu item, or a load_from_config item on a live object of
+    a kind in reconf_kinds): what FreshGen must emit if no guard of Fresh blocks the ideal generator."""
+    ks = sorted(reconf_kinds)
+    new = {k: sum(1 for (kk, _h, _e) in menu if kk == k) for k in ks}
+    cfg = {k: len(config_items(menu, k)) for k in ks}
+    other = len(menu) - sum(new.values())
+
+    def f(n, live):
+        if n == 0:
+            return 1
+        t = other * f(n - 1, live)
+        for i, k in enumerate(ks):
+            t += new[k] * f(n - 1, live[:i] + (live[i] + 1,) + live[i + 1:]) + live[i] * cfg[k] * f(n - 1, live)
+        return t
+
+    return sum(f(n, (0,) * len(ks)) for n in range(1, depth + 1))
 
 
 def gen(depth, restarts, menu, mode="fused", simulate=None, length=0):
@@ -468,11 +536,17 @@ def gen(depth, restarts, menu, mode="fused", simulate=None, length=0):
 
 
 def shape(h):
-    return tuple((s["kind"], s["how"], tuple(s["ex"])) if s["op"] == "Construct" else (s["op"], s["art"]) for s in h)
+    return tuple((s["kind"], s["how"], tuple(s["ex"])) if s["op"] == "Construct"
+                 else ("Reconfigure", s["art"], s["of"], tuple(s["ex"])) if s["op"] == "Reconfigure" else (s["op"], s["art"]) for s in h)
 
 
 def n_constructs(h):
-    return sum(1 for s in h if s["op"] == "Construct")
+    """builds of a history: new objects and objects configured again"""
+    return sum(1 for s in h if s["op"] in BUILDS)
+
+
+def n_reconf(h):
+    return sum(1 for s in h if s["op"] == "Reconfigure")
 
 
 def n_restarts(h):
@@ -505,7 +579,7 @@ def run(tier):
     def mc_job():
         try:
             mc_box["r"] = tlc.mc("C17", "FreshMC", "FreshMC.cfg", env=bounds, timeout=3000, heap="6g", workers=4 if quick else 8,
-                                 require_actions=("MImport", "MConstruct", "MExport", "MRestart"))
+                                 require_actions=("MImport", "MConstruct", "MReconfigure", "MExport", "MRestart"))
         except BaseException as e:  # noqa: BLE001 - re-raised in the main thread
             mc_box["e"] = e
 
@@ -538,15 +612,24 @@ def run(tier):
         v.add_mc(g)
     menu_base = sorted({sh for h in base2 for sh in shape(h) if len(sh) == 3 and isinstance(sh[2], tuple)})
     nb = len(menu_base)
-    if len(base2) != nb + 2 * nb * nb:
-        raise Machinery(f"GEN: {len(base2)} histories of <= 2 constructions over {nb} menu items (expected {nb + 2 * nb * nb}): a guard of Fresh blocks the ideal generator")
+    # restart-free histories: new objects and objects configured again (expected_histories); with one restart: nb * nb more pairs of new objects
+    want2 = expected_histories(menu_base, RECONF, 2) + nb * nb
+    if len(base2) != want2 or sum(1 for h in base2 if not n_reconf(h)) != nb + 2 * nb * nb:
+        raise Machinery(f"GEN: {len(base2)} histories of <= 2 builds over {nb} menu items (expected {want2}, {nb + 2 * nb * nb} of them without "
+                        f"Reconfigure): a guard of Fresh blocks the ideal generator")
     menu_full = sorted({sh for h in full2 for sh in shape(h) if len(sh) == 3 and isinstance(sh[2], tuple)})
     for k, h, e in menu_full:
         if k not in FIELDS or not set(e) <= set(FIELDS[k]):
             raise Machinery(f"menu item {k}/{h}/{e} of the spec is unknown to the harness")
-    if quick and len(base3) != nb + nb * nb + nb ** 3:
-        raise Machinery(f"GEN: {len(base3)} histories of <= 3 constructions (expected {nb + nb * nb + nb ** 3})")
-    say(f"[C17] GEN: menu {nb} base / {len(menu_full)} items; {len(base2)} histories <=2 (+restart), {len(base3)} histories <=3, {len(sim)} simulated ({v.timer.s()}s)")
+    if quick and len(base3) != expected_histories(menu_base, RECONF, 3):
+        raise Machinery(f"GEN: {len(base3)} histories of <= 3 builds (expected {expected_histories(menu_base, RECONF, 3)})")
+    if quick and len(full2) != expected_histories(menu_full, RECONF, 2):
+        raise Machinery(f"GEN: {len(full2)} histories of <= 2 builds over the full menu (expected {expected_histories(menu_full, RECONF, 2)})")
+    reconf_seen = {s["kind"] for h in full2 for s in h if s["op"] == "Reconfigure"}
+    if reconf_seen != RECONF:
+        raise Machinery(f"GEN: TLC configures objects of the kinds {sorted(reconf_seen)} again, the harness expects {sorted(RECONF)} (Reconf of Fresh.tla)")
+    say(f"[C17] GEN: menu {nb} base / {len(menu_full)} items; {len(base2)} histories <=2 (+restart), {len(base3)} histories <=3, {len(sim)} simulated; "
+        f"{sum(1 for h in base3 if n_reconf(h))} + {sum(1 for h in full2 if n_reconf(h))} of them configure an object again ({v.timer.s()}s)")
 
     if not preload(res["warm"].get("modules", [])):
         say("[C17] note: spsdk modules present in the harness process - every interpreter gets a new process image (slower)")
@@ -557,7 +640,7 @@ def run(tier):
         chosen.setdefault(json.dumps(h, sort_keys=True), (h, why))
 
     def cons(h):
-        return [s for s in h if s["op"] == "Construct"]
+        return [s for s in h if s["op"] in BUILDS]
 
     def same_item(a, b):
         return (a["kind"], a["how"]) == (b["kind"], b["how"])
@@ -577,9 +660,22 @@ def run(tier):
     if quick:
         for h in r.sample(rest2, 24):
             take(h, "restart-sample")
-        for h in r.sample(three, 80):
+        for h in r.sample([h for h in three if not n_reconf(h)], 80):
             take(h, "sample-of-3")
+        # an object configured again: every triple that stays within the kinds that allow it, a seeded sample of the others,
+        # and every pair over the full menu (explicit values first / second / both / never)
+        for h in three:
+            if n_reconf(h) and all(c["kind"] in RECONF for c in cons(h)):
+                take(h, "reconfigure-triples")
+        rest3 = [h for h in three if n_reconf(h) and not all(c["kind"] in RECONF for c in cons(h))]
+        for h in r.sample(rest3, min(12, len(rest3))):
+            take(h, "reconfigure-sample-of-3")
+        for h in pairs_full:
+            if n_reconf(h):
+                take(h, "reconfigure-user-supplied-variants")
         for h in pairs_full:  # user-supplied variants: each next to itself and after its base sibling
+            if n_reconf(h):
+                continue
             a, b = cons(h)
             if same_item(a, b) and not is_base(b) and (a["ex"] == b["ex"] or is_base(a)):
                 take(h, "user-supplied-variants")
@@ -608,7 +704,14 @@ def run(tier):
             longs.append((homogeneous(it, r.randrange(131, 260), export=False), "long-homogeneous-attributes-only"))
     for _ in range(2 if quick else 24):
         longs.append((mixed(menu_full, r, r.randrange(70, 131)), "long-mixed"))
-    longs.sort(key=lambda x: -sum(cost.get(s["kind"], 0.01) for s in x[0] if s["op"] == "Construct"))
+    # one object configured again and again, with and without explicit values, exported most of the time
+    for kind in sorted(RECONF):
+        for first in ([(k, h, e) for (k, h, e) in menu_base if k == kind] if quick else [(k, h, e) for (k, h, e) in menu_full if k == kind]):
+            cfgs = config_items(menu_full, kind)
+            base_cfg = [e for e in cfgs if tuple(e) in {tuple(x) for (k, h, x) in menu_base if k == kind and h == "config"}]
+            exs = [list(first[2])] + [(r.choice(cfgs) if r.random() < 0.25 else r.choice(base_cfg)) for _ in range(r.randrange(24, 49) if quick else r.randrange(40, 81))]
+            longs.append((reconfigured(kind, exs, how=first[1], export=lambda: r.random() < 0.8), "long-reconfigured"))
+    longs.sort(key=lambda x: -sum(cost.get(s["kind"], 0.01) for s in x[0] if s["op"] in BUILDS))
 
     # ---- execute on the real code, expensive histories first.  Long histories and histories with a restart: every interpreter segment is
     #      a new process image (exec); short histories without restart: a process forked from the harness, in which spsdk is not imported
@@ -634,6 +737,10 @@ def run(tier):
     v.extra["interpreters"] = {"forked_from_harness_without_spsdk": nfork, "new_process_image": sum(len(segments(h)) for _i, h, _f in items) - nfork}
     slow = sorted(((i.get("wall", 0), hid) for hid, i in infos.items()), reverse=True)[:4]
     v.extra["executor_cpu_note"] = {"sum_wall_s": round(sum(i.get("wall", 0) for i in infos.values()), 1), "slowest": slow}
+    wall_by = {}
+    for i in infos.values():
+        wall_by[i["why"]] = round(wall_by.get(i["why"], 0) + i.get("wall", 0), 1)
+    v.extra["executor_cpu_note"]["wall_by_source_s"] = wall_by
     say(f"[C17] executed ({v.timer.s()}s; sum of executor wall {v.extra['executor_cpu_note']['sum_wall_s']}s, slowest {slow})")
 
     decide(v, traces, infos, "all histories")
@@ -677,11 +784,14 @@ def run(tier):
                                "cryptography: aes_key_unwrap, AES-ECB, AES-CBC (called directly)"]
     v.extra["exhaustive"] = not quick
     v.cov["rule"] = (
-        f"histories = sequences of Construct(kind, how, user-supplied fields) / Export / Restart over the menu of Fresh.tla ({nb} base items = kinds x how, "
-        f"{len(menu_full)} with user-supplied variants): " + ("all of <= 2 constructions, all same-kind restart pairs, a seeded sample of the 3-construction ones and of the restart pairs"
-                                                               if quick else "all of <= 3 constructions, all of <= 2 over the full menu incl. one restart, a seeded sample of 3 constructions with a restart")
-        + "; TLC-simulated free interleavings; one homogeneous history of 70..130 constructions per base item and long mixed ones. Each interpreter segment runs in a fresh "
-        "interpreter. distinct = distinct sequences of (kind, how, user-supplied set) / export / restart steps; every history constructs at least one artefact whose secrets are read (non-trivial)"
+        f"histories = sequences of Construct(kind, how, user-supplied fields) / Reconfigure(live object, user-supplied fields) / Export / Restart over the menu of Fresh.tla "
+        f"({nb} base items = kinds x how, {len(menu_full)} with user-supplied variants; Reconfigure = load_from_config called again on the same object, kinds {sorted(RECONF)}): "
+        + ("all of <= 2 builds, all same-kind restart pairs, a seeded sample of the 3-build ones and of the restart pairs; with Reconfigure: all pairs over the full menu "
+           "(explicit value first / second / both / never), all triples within the reconfigurable kinds, a seeded sample of the other triples"
+           if quick else "all of <= 3 builds, all of <= 2 over the full menu incl. one restart, a seeded sample of 3 builds with a restart")
+        + "; TLC-simulated free interleavings; one homogeneous history of 70..130 constructions per base item, long mixed ones and one object configured again " + ("24..48" if quick else "40..80") + " times. "
+        "Each interpreter segment runs in a fresh interpreter. distinct = distinct sequences of (kind, how, user-supplied set) / reconfigure / export / restart steps; "
+        "every history constructs at least one artefact whose secrets are read (non-trivial)"
     )
     v.assumptions += [
         "a value counts as shared when two artefacts carry the same byte string in a secret-bearing field (attributes / exported bytes); equal values inside ONE artefact and two exports of the same object are not asserted",
@@ -689,6 +799,9 @@ def run(tier):
         f"the 4-byte OTFAD key-blob filler is asserted only in histories of <= {NARROW_MAX_ARTS} constructions (birthday bound 2^-32 per pair; wider fields everywhere)",
         "random alignment filler of SB2 load commands / sections and the SB1 format are not key material of the property's list and are not observed",
         "HAB: the encrypted image is built through HabContainer.load_from_config (YAML form); the legacy BootImgRT class is observed through dek_key / nonce only (no CSF, no export)",
+        "re-use of one object is a step of the histories only where the public API has it: MasterBootImage.load_from_config is a method of the object (Reconfigure); "
+        "BootImageV21 / BeeNxp / HabContainer / Otfad / Iee load_from_config are class or static methods that return a new object and BootImgRT.add_image refuses a second call; "
+        "assigning None to a secret-bearing attribute of an existing object and changing sections / images of an object between two exports are not steps of the histories",
         "user-supplied fields are never asserted; parse() re-uses the secrets of the parsed file by definition and is not part of the histories",
         "the probability that two honest 64..256-bit draws collide is neglected",
     ]
